@@ -190,4 +190,26 @@ CLAIMED["C14"] = {
     "note": TRUST + " Counts (n_nodes, n_threads, lps, n_lps_node) are assumed positive; lps == 0 is confirmed rejected by RootsimInit.",
 }
 
+CLAIMED["C19"] = {
+    "technique": "effect analysis over the call graph of the topology queries with parameter-to-argument binding at call sites; switch exhaustiveness and sibling agreement; set comparison of implemented directions, IsNeighbor's loop range and the candidate arrays' initialisers",
+    "text": ("Decided on every run: every function reachable from GetReceiver / CountDirections / IsNeighbor stores only to its locals (a store "
+             "through a parameter is attributed to whatever its call sites bind: binding a file-scope array is a violation), keeps no static "
+             "state and draws randomness only from the calling LP's generator, so the random choice is a function of that generator alone; "
+             "the three queries handle all 8 geometries and GetReceiver / IsNeighbor use the same helper per geometry; the directions each grid "
+             "helper implements are all tried by IsNeighbor's loop and are exactly the candidates (with the right count) offered to the random "
+             "choice. NOT decided: CountDirections' arithmetic and receiver validity for degenerate sizes (1xN, 1x1, one-region star)."),
+    "note": TRUST,
+}
+CLAIMED["C20"] = {
+    "technique": "cross-language agreement check (record layouts and write order from the C AST vs unpack formats, divisors and magic numbers from the Python parser's ast), exhaustiveness of the name table, bump/event pairing by dominance within one loop, must-use rule on gvt_phase_run's result",
+    "text": ("Decided on every run: sizeof(struct stats_global) / stats_node / stats_thread equal the parser's calcsize formats, divisor and "
+             "multiplier; the node record's field order matches 'dQ'; the magic constant and its byte swap are the two values the parser accepts; "
+             "the fixed-size header records and the name records are written in the order they are read, with int64 size prefixes; every counter "
+             "kind below STATS_COUNT has a name; each of the six event counters is bumped by 1 at exactly one site, paired (by dominance, within "
+             "the same loop) with its event; counters are thread-local, written to the thread's file before being zeroed, after the "
+             "auto-checkpoint reader; thread 0 alone writes the node record; every call site of gvt_phase_run forwards completed rounds to "
+             "stats_on_gvt or lies after the shutdown barrier. NOT decided: truth of timing and memory figures."),
+    "note": TRUST + " The Python parser is read with the standard ast module.",
+}
+
 NOT_APPLICABLE = {}
